@@ -275,7 +275,7 @@ def _record(source: Callable[..., Any]):
         while next:
             (debug_tag, frame) = next
             sequence.append(frame)
-            if debug_tag:
+            if debug_tag is not None:
                 jump_points[debug_tag] = len(sequence) - 1
             args, cont = frame.args, frame.cont
             retval, next = time_travel(cont)(*args)  # pyright: ignore[reportGeneralTypeIssues]
